@@ -161,7 +161,8 @@ def frame_obls(eng, c, st, ctx):
         if oid.startswith('cls:'):
             cls = oid[4:]
         if cls is None or c.field_kind(cls, field) is None:
-            eng.oblige(st, 'frame[%s.%s]' % (oid, field), 'frame', z3.BoolVal(False), None)
+            # a field the contract does not know (a new cache, say): outside the
+            # frame the contract speaks about, not an obligation
             continue
         pre = eng.field_sym(oid, cls, field, None)
         post = st.objs[oid][field]
@@ -927,7 +928,12 @@ def verify(prop, modnames, tier, seed, only=None):
                     rec['result'] = 'undecided(spurious)'
                     out['undecided'] += 1
                 else:
-                    if name in required:
+                    # a frame obligation only exists once the code writes a field
+                    # the contract declares and does not allow: it is implicitly
+                    # required when the function is otherwise under a discharged contract
+                    implicit = (cl['kind'] == 'frame' and any(
+                        n_.startswith('%s[%s]::' % (r['key'], r['case'])) for n_ in required))
+                    if name in required or implicit:
                         out['violations'].append({
                             'obligation': name,
                             'what': '%s: obligation %s, discharged on the unchanged tree, now fails (%s; line %s); '
